@@ -12,8 +12,8 @@ import ast
 
 from ..model import AnalysisError, unparse
 from ..report import RuleResult
-from ._c13_sem import (NP_ORDERING, ORDERING, PathFacts, call_name, ex, is_none, is_reducer, mentions, names_from, prepare, taint,
-                       taint_of)
+from ._c13_sem import (NP_ORDERING, ORDERING, PathFacts, call_name, ex, is_none, is_reducer, local_defs, mentions, names_from, prepare,
+                       provenance, self_attr, self_stores, taint, taint_of)
 
 # no per-element selection: the four corners are kept or dropped together (not among the object kinds C13 enumerates)
 WHOLE_OBJECT = {"GeoImage": "image corners are selected all-or-nothing; `inverse` has no per-element meaning"}
@@ -770,6 +770,299 @@ def rule_orphan(ctx) -> RuleResult:
 
 
 # --------------------------------------------------------------------------------------------------------------------------
+# C13.BBOX — "nothing is returned only when the box misses the object's bounding box": the box handed to box_intersect by an
+# override must be the bounding box of the very coordinates the override then selects on, as they are now.
+def _norm_attr(K, a):
+    """`_x` is read as `x` when x is a property of K (the field behind the property and the property name one source)."""
+    if a.startswith("_") and K is not None:
+        m = K.lookup(a[1:])
+        if m and m[1] == "prop":
+            return a[1:]
+    return a
+
+
+def _selected_sources(p, fn, pred):
+    """Attributes of the object that the coordinates handed to the shared predicate are computed from (None: no direct call)."""
+    sn = fn.self_name or "self"
+    calls = [c for c in ast.walk(fn.node) if _is_call_to(p, fn.module, c, pred)]
+    if not calls:
+        return None
+    out = set()
+    for c in calls:
+        loc = _argument(c, "locations", 0)
+        if loc is not None:
+            out |= {_norm_attr(fn.cls, a) for a in provenance(fn.node, [loc], sn)}
+    return out
+
+
+def _overrides(ctx):
+    """(class, FuncInfo, normalised view) of every mask_by_extent override that has a body."""
+    for ci in ctx.p.classes:
+        if ci.synthetic or "mask_by_extent" not in ci.methods:
+            continue
+        fn0 = ci.methods["mask_by_extent"]
+        if [s for s in fn0.node.body if not (isinstance(s, ast.Expr) and isinstance(s.value, ast.Constant))]:
+            yield ci, fn0, _view(ctx, fn0)
+
+
+def rule_bbox(ctx) -> RuleResult:
+    res = RuleResult(
+        "C13.BBOX",
+        "C13",
+        "for every mask_by_extent override guarded by box_intersect(self.extent, ..): the `extent` getter reached on each class "
+        "using the override computes its value from exactly the object attributes the selected coordinates come from, and, "
+        "when it keeps the value in a field of the object, every member storing one of its inputs resets that field",
+        floor=3,
+    )
+    from ..cache import CacheAnalysis, deps, readers_of_cache
+
+    p = ctx.p
+    pred = _predicate(p)
+    bi = p.module("shared/utils.py").functions.get("box_intersect")
+    if pred is None or bi is None:
+        raise AnalysisError("anchors shared.utils.mask_by_extent / box_intersect not found")
+    for ci, fn0, fn in _overrides(ctx):
+        sn = fn.self_name or "self"
+        guards = [c for c in ast.walk(fn.node) if _is_call_to(p, fn.module, c, bi)
+                  and any("extent" in provenance(fn.node, [a], sn) for a in list(c.args) + [k.value for k in c.keywords])]
+        if not guards:
+            continue
+        selected = _selected_sources(p, fn, pred)
+        if selected is None and not any(_mask_source(p, fn, c, pred) is not None for c in ast.walk(fn.node)):
+            # all-or-nothing selection without the predicate (image corners): what the returned mask is sized by
+            vals = [r.value for r in ast.walk(fn.node) if isinstance(r, ast.Return) and r.value is not None and not is_none(r.value)]
+            selected = {_norm_attr(ci, a) for a in provenance(fn.node, vals, sn)} or None
+        getters = {}
+        for K in p.subclasses(ci):
+            m = K.lookup("mask_by_extent")
+            if not (m and m[1] == "method" and m[2] is fn0):
+                continue
+            e = K.lookup("extent")
+            if e and e[1] == "prop" and e[2].getter is not None:
+                getters.setdefault(id(e[2].getter), (e[2].getter, []))[1].append(K)
+        for g0, users in getters.values():
+            g = ctx.view(g0)
+            gsn = g.self_name or "self"
+            rets = [r.value for r in ast.walk(g.node) if isinstance(r, ast.Return) and r.value is not None and not is_none(r.value)]
+            if not rets:
+                continue  # declaration only
+            K = users[0]
+            got = {_norm_attr(K, a) for a in provenance(g.node, rets, gsn)} - {"extent"}
+            where = f"{g.module.relpath}:{g.node.lineno}"
+            ok = selected is None or got == selected
+            res.inst(f"{ci.name}.mask_by_extent guard <- {g.qualname}: bounding box of {sorted(got)}, selection on "
+                     f"{sorted(selected) if selected is not None else 'a base class'}", nontrivial=True, ok=ok)
+            if selected is not None and selected - got:
+                res.find(g.cls.name, "extent", f"bounding box does not cover the coordinates {ci.name}.mask_by_extent selects on", where,
+                         f"the guard of {ci.name}.mask_by_extent tests a box computed from {sorted(got)} while the elements are selected on "
+                         f"{sorted(selected)}: elements inside the requested box can be rejected wholesale")
+            if selected is not None and got - selected:
+                res.find(g.cls.name, "extent", f"bounding box wider than the coordinates {ci.name}.mask_by_extent selects on", where,
+                         f"the guard of {ci.name}.mask_by_extent tests a box that also spans {sorted(got - selected)}: it passes for boxes that hold "
+                         "no selectable element, an all-False mask is returned instead of nothing and copy_from_extent copies the object")
+            # a value kept on the object must be dropped whenever its inputs change
+            for F in sorted(self_stores(g.node, gsn)):
+                for K in users:
+                    d = deps(K, g0, F)
+                    if not d:
+                        continue
+                    ana = CacheAnalysis(K, F, d, readers_of_cache(K, "extent", F))
+                    seen = set()
+                    for c in K.mro:
+                        if isinstance(c, str):
+                            continue
+                        members = list(c.methods.values())
+                        for pr in c.props.values():
+                            members += [x for x in (pr.getter, pr.setter, pr.deleter) if x is not None and x.cls is c]
+                        for mfn in members:
+                            key = (mfn.name, mfn.kind)
+                            if key in seen or mfn.name == "__init__" or mfn is g0:
+                                continue
+                            seen.add(key)
+                            bad, _fresh, touched = ana.summary(mfn)
+                            if not touched:
+                                continue
+                            res.inst(f"{K.name}: {mfn.qualname} stores an input of the kept bounding box -> must reset it", nontrivial=True, ok=not bad)
+                            for _dep, line in sorted(bad):
+                                res.find(mfn.cls.name, mfn.prop or mfn.name, "stores an input of the kept bounding box without resetting it",
+                                         f"{mfn.module.relpath}:{line}",
+                                         f"{g.qualname} keeps its value on the object; {mfn.qualname} changes what it was computed from and leaves it: "
+                                         "the guard of mask_by_extent then tests the box of the old position")
+    return res
+
+
+# --------------------------------------------------------------------------------------------------------------------------
+# C13.AGREE — "copying by extent yields exactly that selection": the mask an override computes has one entry per row of the
+# coordinates it selected on; copy(mask=...) must sub-sample those same coordinates with it.
+def _masked_attributes(ctx, K, cp):
+    """Attributes of the object that the `copy` reached on K indexes with its mask (following super().copy(mask=..) upwards)."""
+    out = set()
+    mro = [c for c in K.mro if not isinstance(c, str)]
+    seen = set()
+    while cp is not None and id(cp) not in seen:
+        seen.add(id(cp))
+        v = ctx.view(cp)
+        params = v.params + [a.arg for a in v.node.args.kwonlyargs]
+        if "mask" not in params:
+            break
+        sn = v.self_name or "self"
+        t = taint(v.node, ["mask"])
+        for x in ast.walk(v.node):
+            if isinstance(x, ast.Subscript) and "mask" in taint_of(x.slice, t):
+                a = self_attr(x.value, sn)
+                if a is not None:
+                    out.add(_norm_attr(K, a))
+        nxt = None
+        for c in ast.walk(v.node):
+            if isinstance(c, ast.Call) and isinstance(c.func, ast.Attribute) and c.func.attr == "copy" and isinstance(c.func.value, ast.Call) \
+                    and call_name(c.func.value) == "super":
+                m = _argument(c, "mask", None, v.node, None)
+                if m is not None and "mask" in taint_of(m, t) and cp.cls in mro:
+                    for base in mro[mro.index(cp.cls) + 1:]:
+                        o = base.own("copy")
+                        if o is not None and o[0] == "method":
+                            nxt = o[1]
+                            break
+        cp = nxt
+    return out
+
+
+def rule_agree(ctx) -> RuleResult:
+    res = RuleResult(
+        "C13.AGREE",
+        "C13",
+        "on every class whose copy_from_extent hands the result of self.mask_by_extent to self.copy(mask=..): the coordinates "
+        "that copy sub-samples with the mask are the coordinates the mask was computed on (one mask entry per row)",
+        floor=2,
+    )
+    p = ctx.p
+    pred = _predicate(p)
+    sources = {id(fn0): _selected_sources(p, fn, pred) for _ci, fn0, fn in _overrides(ctx)}
+    locations = set().union(*[s for s in sources.values() if s])  # what the package selects on at all (vertices, centroids, ...)
+    done = set()
+    for K in p.classes:
+        if K.synthetic:
+            continue
+        got = [K.lookup(n) for n in ("copy_from_extent", "mask_by_extent", "copy")]
+        if not all(m and m[1] == "method" for m in got):
+            continue
+        cfe, mbe, cp = (m[2] for m in got)
+        key = (id(cfe), id(mbe), id(cp))
+        if key in done or not sources.get(id(mbe)):
+            continue
+        done.add(key)
+        v = _view(ctx, cfe)
+        sn = v.self_name or "self"
+
+        def selecting(x, sn=sn):
+            return isinstance(x, ast.Call) and isinstance(x.func, ast.Attribute) and x.func.attr == "mask_by_extent" \
+                and isinstance(x.func.value, ast.Name) and x.func.value.id == sn
+
+        derived = names_from(v.node, selecting)
+        defs = local_defs(v.node)
+        handed = False
+        for c in ast.walk(v.node):
+            if isinstance(c, ast.Call) and isinstance(c.func, ast.Attribute) and c.func.attr == "copy" and isinstance(c.func.value, ast.Name) and c.func.value.id == sn:
+                m = _argument(c, "mask", None, v.node, defs)
+                if m is not None and any(selecting(x) or (isinstance(x, ast.Name) and x.id in derived) for x in ast.walk(m)):
+                    handed = True
+        if not handed:
+            continue
+        masked = _masked_attributes(ctx, K, cp) & locations
+        selected = sources[id(mbe)]
+        ok = not masked or bool(masked & selected)
+        res.inst(f"{K.name}: mask over {sorted(selected)} ({mbe.qualname}) applied to {sorted(masked) or 'no coordinates'} ({cp.qualname})", nontrivial=True, ok=ok)
+        if not ok:
+            res.find(mbe.cls.name, "mask_by_extent", "selection mask is computed on other coordinates than copy(mask=...) sub-samples",
+                     f"{mbe.module.relpath}:{mbe.node.lineno}",
+                     f"{cfe.qualname} hands the mask of {mbe.qualname} (one entry per row of {sorted(selected)}) to {cp.qualname}, which indexes "
+                     f"{sorted(masked)} with it: the copy fails or ignores the selection instead of yielding exactly the selected elements")
+    return res
+
+
+# --------------------------------------------------------------------------------------------------------------------------
+# C13.SPAN — "for 2-D grids the result is the smallest sub-grid covering the selected cells": the number of columns / rows of
+# the sub-grid is the span from the first to the last selected one, not how many of them hold a selected cell.
+def _count_entries(fn_node):
+    """(key, value expression) of the `<x>_count` entries a function puts in a dict display / passes as keyword arguments."""
+    for n in ast.walk(fn_node):
+        if isinstance(n, ast.Dict):
+            for k, v in zip(n.keys, n.values):
+                if isinstance(k, ast.Constant) and isinstance(k.value, str) and k.value.endswith("_count"):
+                    yield k.value, v
+        elif isinstance(n, ast.Call):
+            for k in n.keywords:
+                if k.arg and k.arg.endswith("_count"):
+                    yield k.arg, k.value
+
+
+def rule_span(ctx) -> RuleResult:
+    res = RuleResult(
+        "C13.SPAN",
+        "C13",
+        "in every copy_from_extent that sizes a sub-grid (`<axis>_count` of the copy): a count obtained by counting flags is not "
+        "taken over the bare projection np.any(<selection>, axis=..) — columns / rows lying between selected ones belong to the "
+        "covering sub-grid although they hold no selected cell",
+        floor=2,
+    )
+    p = ctx.p
+    for K in p.classes:
+        fn0 = K.methods.get("copy_from_extent") if not K.synthetic else None
+        if fn0 is None:
+            continue
+        fn = _view(ctx, fn0)
+        node = fn.node
+        defs = local_defs(node)
+        binds: dict = {}
+        for n in ast.walk(node):
+            if isinstance(n, (ast.Assign, ast.AnnAssign, ast.AugAssign)) and getattr(n, "value", None) is not None:
+                for t in (n.targets if isinstance(n, ast.Assign) else [n.target]):
+                    b = t
+                    while isinstance(b, ast.Subscript):
+                        b = b.value
+                    if isinstance(b, ast.Name):
+                        binds.setdefault(b.id, []).append(None if (b is not t or isinstance(n, ast.AugAssign)) else n.value)
+
+        def bare_projection(e, depth=0):
+            """e is np.any(<x>, axis=..) / <x>.any(axis=..) itself, possibly through plain local names"""
+            if depth > 6:
+                return False
+            if isinstance(e, ast.Name):
+                vals = binds.get(e.id)
+                return bool(vals) and all(v is not None and bare_projection(v, depth + 1) for v in vals)
+            if isinstance(e, ast.Attribute):
+                # a field of a record built in the function: Record(columns=np.any(..), ..).columns
+                rec = ex(e.value, node, defs)
+                if isinstance(rec, ast.Call):
+                    return any(k.arg == e.attr and bare_projection(k.value, depth + 1) for k in rec.keywords)
+                return False
+            if not isinstance(e, ast.Call):
+                return False
+            red = is_reducer(e, {"any"})
+            positional = len(e.args) - (1 if e.args and red and red[1] is e.args[0] else 0)  # arguments besides the reduced array
+            return bool(red) and (any(k.arg == "axis" for k in e.keywords) or positional >= 1)
+
+        seen = set()
+        for key, v in _count_entries(node):
+            x = ex(v, node, defs)
+            cnt = is_reducer(x, COUNTERS) if isinstance(x, ast.Call) else None
+            if not cnt:
+                continue
+            bad = bare_projection(cnt[1])
+            if (key, bad) in seen:
+                continue
+            seen.add((key, bad))
+            res.inst(f"{fn.qualname}: {key} = number of flagged columns / rows" + (" of the bare projection" if bad else " after closing the gaps"),
+                     nontrivial=True, ok=not bad)
+            if bad:
+                res.find(K.name, "copy_from_extent", f"{key} counts the columns / rows that hold a selected cell, not the span that covers them",
+                         f"{fn.module.relpath}:{v.lineno}",
+                         "when the selected cells leave a column / row between them empty (thin box across a rotated grid) the sub-grid is smaller "
+                         "than the covering one and the kept values sit at the coordinates of other cells")
+    return res
+
+
+# --------------------------------------------------------------------------------------------------------------------------
 # C13.ONCE — "copying by extent yields exactly that selection ... with values outside the box blanked": the cells blanked in
 # the copy must be decided by the evaluation of the predicate that selected them in the SOURCE.  A second evaluation on the
 # copy (whose coordinates are recomputed from a shifted origin) is a different floating-point computation: it may disagree
@@ -904,4 +1197,4 @@ def rule_once(ctx) -> RuleResult:
     return res
 
 
-RULES = [rule_deleg, rule_closed, rule_fwd, rule_orphan, rule_once]
+RULES = [rule_deleg, rule_closed, rule_fwd, rule_orphan, rule_once, rule_bbox, rule_agree, rule_span]
